@@ -114,3 +114,12 @@ PROPS['C02'] = dict(level='fault_enumeration',
   outside='two simultaneous faults; allocation failure; interleavings where a completion destroys the operation on another thread (see C19/C09)',
   harnesses=[SEQ('fault_%s_k%d' % (n, k), 'C02_faults.cpp', 'h_f_' + n, exc=True, opts=dict(params=[k], max_visits=300, max_rec=8), desc='%s: throw injected at fault site %d%s' % (n, k, ' (no fault)' if k == 99 else '')) for n in
      ['finally', 'finally_done', 'let_value', 'let_error', 'let_done', 'sequence', 'repeat', 'when_all', 'allocate'] for k in list(range(10)) + [99]])
+
+CFGS = [('c++17', ['NDEBUG']), ('c++20', ['NDEBUG']), ('c++17', ['UNDEBUG']), ('c++20', ['UNDEBUG']),
+        ('c++17', ['NDEBUG', 'UNIFEX_ENABLE_CONTINUATION_VISITATIONS=1']), ('c++20', ['UNDEBUG', 'UNIFEX_ENABLE_CONTINUATION_VISITATIONS=1'])]
+def cfgname(std, defs): return std.replace('+', 'p') + ('_dbg' if 'UNDEBUG' in defs else '_rel') + ('_vis' if any('VISIT' in d for d in defs) else '')
+PROPS['C20'] = dict(level='translation_validation',
+  bounds='C05 sequential catalogue (10 expression shapes, symbolic leaf outcomes and payloads) under 6 configurations {C++17,C++20} x {NDEBUG, debug+async stacks} x {visitations 0,1}: every configuration must satisfy the same reference oracle on all inputs',
+  outside='gcc-vs-clang differences; coroutine expressions under C++17 (not compiled there); async_trace output format',
+  harnesses=[SEQ('%s_%s' % (n, cfgname(std, defs)), 'C20_cfg.cpp', 'h20_' + n, std=std, defs=defs, extra=(['$REPO/source/async_stack.cpp'] if 'UNDEBUG' in defs else []), desc='%s under %s %s' % (n, std, ' '.join(defs)))
+             for (std, defs) in CFGS for n in ['then', 'upon_error', 'upon_done', 'let_value', 'let_error', 'let_done', 'sequence', 'finally', 'materialize', 'just']])
